@@ -58,6 +58,18 @@ def hints_of(pkt):
     return ",".join([io(d.get("MSS")), io(d.get("WScale")), io(ts[0]), io(ts[1])])
 
 
+_GLOBAL = [False]
+
+
+def _load_global():
+    """applications usually have the shipped database loaded in the global DATABASE; a call that is given its own
+    database must never fall back to it"""
+    if not _GLOBAL[0]:
+        from pyp0f.database import DATABASE
+        DATABASE.load()
+        _GLOBAL[0] = True
+
+
 def op_imprun(f):
     p = P()
     from scapy.layers.inet import IP
@@ -69,6 +81,7 @@ def op_imprun(f):
     kw = {}
     if f[1].startswith("L:"):
         from .ops_hist import do_load
+        _load_global()
         db = p["Database"]()
         do_load(db, f[9], False)
         kw = dict(raw_label=bytes.fromhex(f[1][2:]).decode("latin-1"), database=db)
@@ -79,7 +92,7 @@ def op_imprun(f):
             st0 = random.getstate()
             random.seed(int(f[8]) ^ 0x5a5a)
             try:
-                p["I"].impersonate_tcp(base_packet(wv, bytes.fromhex(wh), wk), **kw)
+                p["I"].impersonate_tcp(base_packet(wv, bytes.fromhex(wh), wk), extra_hops=len(wh) % 4, **kw)
             except impl.Hang:
                 raise
             except Exception:  # noqa
